@@ -165,3 +165,47 @@ theorem Step.frame {f f' : Forest} {e nm : Nat} {N A S roots0 s' : List HTree} {
 
 end Fmap
 end XotModel
+
+namespace XotModel
+namespace Fmap
+open HTree
+open Forest (MapKind entryKey mapChildren)
+
+theorem validList_mem (b : Bool) (ks : List HTree) (hv : validList b ks = true) (r : HTree)
+    (hr : r ∈ ks) : validTree b r = true := by
+  induction ks with
+  | nil => cases hr
+  | cons k ks ih =>
+    simp only [validList, Bool.and_eq_true] at hv
+    rcases List.mem_cons.mp hr with rfl | hr
+    · exact hv.1
+    · exact ih hv.2 hr
+
+/-- Under the invariant, a parentless attribute / namespace node is a leaf among the roots. -/
+theorem leafRoot_of_inv (f : Forest) (hi : f.Inv) (k : MapKind) (nd : Nat) (v : Value)
+    (hroot : f.isRoot nd = true) (hval : f.value? nd = some v) (hm : k.matches v = true) :
+    HTree.node nd v [] ∈ f.roots := by
+  unfold Forest.isRoot at hroot
+  obtain ⟨r, hr, hh⟩ := List.any_eq_true.mp hroot
+  have hh' : r.handle = nd := by simpa using hh
+  have hg : f.get? r.handle = some r := findList?_direct f.roots hi.nodup r hr
+  rw [hh'] at hg
+  unfold Forest.value? at hval
+  rw [hg] at hval
+  cases r with
+  | node h' v' ks =>
+    simp only [HTree.handle] at hh'
+    simp only [Option.map_some, HTree.value, Option.some.injEq] at hval
+    subst hh' hval
+    have hvt := validList_mem _ _ hi.valid _ hr
+    simp only [validTree, Bool.and_eq_true] at hvt
+    obtain ⟨⟨⟨⟨⟨hall, _⟩, _⟩, _⟩, _⟩, _⟩ := hvt
+    cases ks with
+    | nil => exact hr
+    | cons c cs =>
+      exfalso
+      simp only [List.all_cons, Bool.and_eq_true] at hall
+      cases k <;> cases v' <;> simp [MapKind.matches, kidAllowed] at hm hall
+
+end Fmap
+end XotModel
